@@ -14,6 +14,7 @@ from ..runner import Ctx, rule
 from .runtime import conjuncts, facts_at
 
 ALREADY = f"{A.PLAN}.already_computed"
+SKIP_NODE_Q = f"{A.RT_PIPE}.skip_node"
 
 
 def _edge_facts(cfg, src: int, dst: int):
@@ -493,3 +494,41 @@ def _props_for(f: Def) -> list[str]:
     if q.startswith(f"{A.PLAN}.Plan._finalize") or q.startswith(f"{A.PLAN}.Plan._c"):
         return ["C02", "C10"]
     return ["C10"]
+
+
+@rule("RESUME-PURE-1", props=["C09", "C10", "C20"], floor=2)
+def resume_pure(ctx: Ctx) -> None:
+    """the resume decision is a read-only query of storage: already_computed / skip_node store
+    nothing on the objects they inspect (plan nodes, target arrays travel inside pickled
+    arrays and are shared between computations — a remembered verdict outlives the data it
+    described)"""
+    repo = ctx.repo
+    for q in (ALREADY, SKIP_NODE_Q):
+        f = repo.get(q)
+        fl, cfg = flow_of(repo, f), cfg_of(f)
+        bad = []
+        for n in f.own_nodes():
+            tg = n.targets if isinstance(n, ast.Assign) else [n.target] if isinstance(n, (ast.AugAssign, ast.AnnAssign)) else n.targets if isinstance(n, ast.Delete) else []
+            for t in tg:
+                if isinstance(t, (ast.Attribute, ast.Subscript)):
+                    base = t
+                    while isinstance(base, (ast.Attribute, ast.Subscript, ast.Call)):
+                        base = base.func if isinstance(base, ast.Call) else base.value
+                    local_fresh = False
+                    if isinstance(base, ast.Name) and cfg.has(n):
+                        rs = fl.roots(base, cfg.node_of(n))
+                        local_fresh = bool(rs) and all(r.startswith("new:") for r in rs)
+                    if not local_fresh:
+                        bad.append(n)
+            if isinstance(n, ast.Call) and isinstance(n.func, ast.Name) and n.func.id in ("setattr", "delattr"):
+                bad.append(n)
+        ctx.ob(
+            f,
+            bad[0] if bad else None,
+            not bad,
+            f"{f.name} stores nothing on the objects it inspects"
+            + ("" if not bad else f" — `{unparse(bad[0], 50)}`: a verdict remembered on a plan object or target array is reused by later computations, and travels with the array when it is pickled, after the data it described is gone"),
+            sel="pure:no-store",
+        )
+        # ... and reads no remembered verdict either: every acceptance consults storage
+        # (covered per output by RESUME-ALL-1's completeness facts)
